@@ -127,6 +127,9 @@ def templates(tier, seed):
     for form in ("var-x", "var-xy", "expr-y", "ref-x"):
         for loc in ("r", "tl", "c", "b"):
             tds.append(dict(fam="textcontent-coords", form=form, loc=loc))
+    for form in ("attr", "content", "multiline"):
+        for xf in ("rotate(45)", "translate(3 4) scale(2)", "matrix(1 0 0 1 5 6)"):
+            tds.append(dict(fam="text-own-transform", form=form, xf=xf))
     return tds
 
 
@@ -237,6 +240,27 @@ def build_textcontent_coords(td, wrong):
     return Template(f"textcontent-coords/{form}/{loc}", [d0, d1], vars_, check, family="textcontent-coords", role="C19/textcontent", cap=4)
 
 
+def build_text_own_transform(td, wrong):
+    """a <text> element's own transform stays on the generated <text>; its anchor is the untransformed position"""
+    form, xf = td["form"], td["xf"]
+    vars_ = [(4, *P), (7, *P)]
+    doc = {"attr": f'<svg><text xy="[[0]] [[1]]" transform="{xf}" text="label"/></svg>', "content": f'<svg><text xy="[[0]] [[1]]" transform="{xf}">label</text></svg>',
+           "multiline": f'<svg><text xy="[[0]] [[1]]" transform="{xf}" text="one\ntwo"/></svg>', "loc": f'<svg><text xy="[[0]] [[1]]" text-loc="br" transform="{xf}" text="label"/></svg>'}[form]
+
+    def check(r):
+        if r.status != "ok":
+            return [Obl("transform-ok", FAIL, ground=True, note=r.docs[0]["msg"][:200])]
+        o = Out(r.output)
+        ts = o.by_tag("text")
+        if len(ts) != 1:
+            return [Obl("one-text-element", FAIL, ground=True, note=str(len(ts)))]
+        t = ts[0]
+        want = xf + ("x" if wrong else "")
+        return [Obl("own-transform-kept", PASS if t.get("transform") == want else FAIL, ground=True, note=str(t.get("transform"))),
+                Obl("text.x", ne(o.num(t, "x", None), "v0")), Obl("text.y", ne(o.num(t, "y", None), "v1"))]
+    return Template(f"text-own-transform/{form}/{xf}", doc, vars_, check, family="text-own-transform", role="C19/text-own-transform", cap=4)
+
+
 def twins(tier, seed):
     return [dict(fam="place", kind="rect", loc="tl", mode="default", off="sym", dxy="dx+dy", vert=False, lines=1, carrier="attr"),
             dict(fam="multiline", kind="line", loc="b", mode="default", off="default", dxy="none", vert=False, lines=3, carrier="attr", lsp="sym"),
@@ -252,6 +276,8 @@ def build(td, wrong=False):
         return build_textref_explicit(td, wrong)
     if td["fam"] == "textcontent-coords":
         return build_textcontent_coords(td, wrong)
+    if td["fam"] == "text-own-transform":
+        return build_text_own_transform(td, wrong)
     kind = td["kind"]
     sm, vars_, vbox, visible = shape_markup(kind, 0)
     vars_ = list(vars_)
